@@ -295,7 +295,34 @@ func init() {
 		return StrV{S: strings.ToUpper(concStr(it, a[0], "ToUpper"))}
 	})
 	R("strings.TrimSpace", func(it *Interp, _ *ssa.Function, a []Value) Value {
-		return StrV{S: strings.TrimSpace(concStr(it, a[0], "TrimSpace"))}
+		sv, ok := a[0].(StrV)
+		if !ok || sv.Concrete() {
+			return StrV{S: strings.TrimSpace(concStr(it, a[0], "TrimSpace"))}
+		}
+		// symbolic bytes, concrete length: strip ASCII white space from both ends by forking per byte. A byte
+		// >= 0x80 at an edge would need the Unicode tables (U+0085, U+00A0 ...): not modelled, aborts (INCONCLUSIVE).
+		c := it.C
+		b := it.strBytes(sv)
+		isSpace := func(t *smt.Term) *smt.Term {
+			return c.Or(c.Eq(t, c.BVU(32, 8)), c.And(c.BVUle(c.BVU(9, 8), t), c.BVUle(t, c.BVU(13, 8))))
+		}
+		edge := func(t *smt.Term) bool { // true: t is white space (strip it); false: stop here
+			if it.Branch(isSpace(t)) {
+				return true
+			}
+			if it.Branch(c.BVUle(c.BVU(0x80, 8), t)) {
+				it.abort("strings.TrimSpace: non-ASCII byte at the edge of a symbolic string is not modelled")
+			}
+			return false
+		}
+		lo, hi := 0, len(b)
+		for lo < hi && edge(b[lo]) {
+			lo++
+		}
+		for hi > lo && edge(b[hi-1]) {
+			hi--
+		}
+		return it.mkStr(b[lo:hi])
 	})
 	R("strings.Join", func(it *Interp, _ *ssa.Function, a []Value) Value {
 		var parts []string
